@@ -1,0 +1,23 @@
+//go:build verif
+
+package webserver
+
+import (
+	"net/http"
+	"os"
+)
+
+// Export for the C17 (admin API authorisation and secrecy) correspondence
+// driver.  Add-only.
+
+// VerifAPIHandler returns the handler mounted at /galene-api/ by Serve
+// (apiHandler).  staticDir is opened as the static root, which notFound
+// reads 404.html from.
+func VerifAPIHandler(staticDir string) (http.Handler, error) {
+	root, err := os.OpenRoot(staticDir)
+	if err != nil {
+		return nil, err
+	}
+	staticRoot = root
+	return http.HandlerFunc(apiHandler), nil
+}
